@@ -163,4 +163,70 @@ def lazyTranspose2 (L : Lazy2 α) (dim0 dim1 : Int) : Option (Lazy2 α) :=
       let b' := if b < L.sd then b else b - 1
       (allSome (L.members.map fun Li => lazyTranspose Li (a' : Int) (b' : Int))).bind fun ms => lazyStack2 ms L.sd
 
+/-! ### index writes on a stack of stacks
+
+The outer code is `__setitem__` (_lazy.py) again; `self.tensordicts[i][_idx] = value` is now the
+index write of an inner lazy stack (`lazySetCore`), and `self.tensordicts[i].update(value,
+inplace=True)` (empty `_idx`) writes the whole value, i.e. `lazySetCore Li [] value`. -/
+
+/-- write `v` through `out` into inner stack `i` -/
+def memberSet2 (ms : List (Lazy α)) (out : List Ix) (i : Nat) (v : TD α) : Option (List (Lazy α)) :=
+  (ms[i]?).bind fun Li => (lazySetCore Li out v).map fun Li' => ms.set i Li'
+
+/-- the sequence of inner writes of one outer `__setitem__`, in program order -/
+def writeAll2 (out : List Ix) : List (Nat × TD α) → List (Lazy α) → Option (List (Lazy α))
+  | [], ms => some ms
+  | (i, v) :: r, ms => (memberSet2 ms out i v).bind (writeAll2 out r)
+
+/-- mirrors `__setitem__` of a stack of stacks for a tensordict value of the indexed batch size and
+an Ellipsis-free index; the branches of `lazySetCore` (isinteger, rank-1 integer tensor on the
+outer stack dim, default, rank-1 mask on the outer stack dim) over inner lazy stacks -/
+def lazySetCore2 (L : Lazy2 α) (ix : List Ix) (v : TD α) : Option (Lazy2 α) :=
+  (idxShape ix L.batch).bind fun ibs =>
+  if v.batch ≠ ibs then none else
+  (splitIndex2 L ix).bind fun st =>
+    if st.hasBool then
+      match st.out[st.maskLoc]? with
+      | some (.mask m) =>
+        match m.shape with
+        | [k] =>
+          if k ≠ L.members.length ∨ st.splitDim < 0 then none else
+          let outWo := st.out.eraseIdx st.maskLoc
+          let chosen := (List.range k).filter fun i => m.get [i]
+          if v.batch[st.splitDim.toNat]? ≠ some chosen.length then none else
+          (writeAll2 outWo ((List.range chosen.length).map fun j =>
+              (chosen[j]?.getD L.members.length, v.select st.splitDim.toNat j)) L.members).map
+            fun ms => { L with members := ms }
+        | _ => none
+      | _ => none
+    else
+      let ud : Int := (L.sd : Int) - st.numSingle + st.numNone - st.numSquash
+      if st.isInteger then
+        match st.sel with
+        | .single i => (memberSet2 L.members st.out i v).map fun ms => { L with members := ms }
+        | _ => none
+      else if ud < 0 then none
+      else if st.isNd then
+        match st.sel with
+        | .tens t =>
+          if st.out.any Ix.isAdv then none else
+          match t.shape with
+          | [k] =>
+            if v.batch[ud.toNat]? ≠ some k then none else
+            (writeAll2 st.out ((List.range k).map fun j =>
+                ((normInt (t.get [j]) L.members.length).getD L.members.length, v.select ud.toNat j)) L.members).map
+              fun ms => { L with members := ms }
+          | _ => none      -- rank ≥ 2 tensors on the outer stack dim: outside this model
+        | _ => none
+      else
+        let ids := st.sel.ids L.members.length
+        if v.batch[ud.toNat]? ≠ some ids.length then none else
+        (writeAll2 st.out ((List.range ids.length).map fun j =>
+            (ids[j]?.getD L.members.length, v.select ud.toNat j)) L.members).map
+          fun ms => { L with members := ms }
+
+/-- `lazy_of_lazy[index] = value` -/
+def lazySet2 (L : Lazy2 α) (ix : List Ix) (v : TD α) : Option (Lazy2 α) :=
+  (convertEllipsis ix L.batch.length).bind fun ix' => lazySetCore2 L ix' v
+
 end TdVerif.C08
